@@ -541,6 +541,25 @@ pub fn exec_op<C: Cv, CS: ConstraintSystem<Fr<C>>>(
     ph: u8,
     hk: &Hooks<C, CS>,
 ) -> Result<(), R1CSError> {
+    let r = exec_op_inner(cs, op, cx, ph, hk);
+    // the gate count after the call is part of what the call returns to an observer (C16)
+    if cx.record {
+        if let Some(last) = cx.events.borrow_mut().last_mut() {
+            if last["ev"] == "call" && last.get("mlen").is_none() {
+                last["mlen"] = json!(cs.multipliers_len());
+            }
+        }
+    }
+    r
+}
+
+fn exec_op_inner<C: Cv, CS: ConstraintSystem<Fr<C>>>(
+    cs: &mut CS,
+    op: &Op,
+    cx: &Ctx<C>,
+    ph: u8,
+    hk: &Hooks<C, CS>,
+) -> Result<(), R1CSError> {
     let is_p = cx.role == "P";
     match op {
         Op::Commit { v, vb } => {
@@ -677,6 +696,9 @@ pub fn exec_op<C: Cv, CS: ConstraintSystem<Fr<C>>>(
                 setgate(cs, *i, l, r, o2);
                 cx.emit(json!({"ev":"call","ph":ph,"op":"setgate","i":i,"l":enc_s::<C>(&l),"r":enc_s::<C>(&r),
                                "o":enc_s::<C>(&o2),"ret":[],"err":""}));
+            } else {
+                // the verifier has no assignment to overwrite; the call is recorded so that both roles list the same calls
+                cx.emit(json!({"ev":"call","ph":ph,"op":"setgate","i":i,"ret":[],"err":""}));
             }
             Ok(())
         }
